@@ -278,6 +278,10 @@ const simDictXML = `<?xml version="1.0" encoding="UTF-8"?>
       <request><rule avp="Sim-Octets" required="false" max="1"/></request>
       <answer><rule avp="Sim-Octets" required="false" max="1"/></answer>
     </command>
+    <command code="8388700" short="ZV" name="Sim-Two-Vendor-Range">
+      <request><rule avp="Sim-Octets" required="false" max="1"/></request>
+      <answer><rule avp="Sim-Octets" required="false" max="1"/></answer>
+    </command>
   </application>
 </diameter>`
 
@@ -290,7 +294,7 @@ type simCmd struct {
 
 var simCmds = []simCmd{
 	{0, 257, "CE"}, {0, 280, "DW"}, {0, 900, "XA"}, {0, 901, "XB"},
-	{1001, 900, "YA"}, {1001, 910, "YC"}, {1002, 910, "ZC"},
+	{1001, 900, "YA"}, {1001, 910, "YC"}, {1002, 910, "ZC"}, {1002, 8388700, "ZV"},
 }
 
 // simShort gives the short name the dictionary semantics assign to (app, code):
